@@ -147,7 +147,8 @@ Proof.
   { unfold num_val. rewrite Htext, Hrt, Hfin, Hnf. cbn [sn_neg sn_int sn_frac sn_exp].
     destruct Hrest as [[-> Hrange] | (fp & -> & _)]; [| reflexivity].
     unfold fr. destruct s.
-    - destruct (Z.leb_spec (Z.of_N (N_of_digits ip)) 9223372036854775808); [lia | reflexivity].
+    - destruct (N.eqb_spec (N_of_digits ip) 0) as [Hz|Hz]; [lia|].
+      destruct (Z.leb_spec (Z.of_N (N_of_digits ip)) 9223372036854775808); [lia | reflexivity].
     - destruct (N.leb_spec (N_of_digits ip) 18446744073709551615); [lia | reflexivity]. }
   rewrite Hval. cbn [onum_same num_same]. apply N.eqb_refl.
 Qed.
